@@ -25,6 +25,21 @@ Theorem C05_afb_zero_row :
 Proof. exact @afb_zero_adjoint_row. Qed.
 Print Assumptions C05_afb_zero_row.
 
+(* periodization, even length >= filter length (the property's guard; odd or shorter: known findings): same statement *)
+Theorem C05_afb_per_row :
+  forall (R:Type) (Op:Ops R) (Rth:RingOk Op) (x G0 G1:@ten R) (L:Z) (h0 h1:Z->R),
+  2 <= L -> L mod 2 = 0 -> tW x mod 2 = 0 -> L <= tW x -> 1 <= tH x -> 0 < tC x ->
+  same_shape G0 G1 = true -> tH G0 = tH x -> tW G0 = tW x / 2 ->
+  is_ok (afb1d Op x L h0 h1 M_PER 3) (fun y =>
+  is_ok (sfb1d Op G0 G1 L h0 h1 M_PER 3) (fun dx =>
+    tW dx = tW x /\
+    forall n c i, 0 <= i < tH x ->
+      radd Op (dot Op (tW y) (fun k => tf y n (2*c) i k) (fun k => tf G0 n c i k))
+              (dot Op (tW y) (fun k => tf y n (2*c+1) i k) (fun k => tf G1 n c i k))
+      = dot Op (tW x) (fun q => tf x n c i q) (fun q => tf dx n c i q))).
+Proof. exact @afb_per_adjoint_row. Qed.
+Print Assumptions C05_afb_per_row.
+
 (* which gradients SFB*.backward returns (after the fix): everything requested *)
 Theorem C05_subsets : forall need_low need_high : bool,
   let '(rl, rh) := SFB_bwd_returns need_low need_high in
